@@ -107,6 +107,17 @@ class EventsDomain:
                 st = self._walk_expr(st, c)
         if isinstance(e, (ast.Call, ast.Await)):
             self.observe(e, st, self.fi)
+            # a call/await inside a try body may raise whatever the enclosing handlers are prepared to catch
+            from .flow import TryFrame
+            names = []
+            for fr in self.interp.act.frames:
+                if isinstance(fr, TryFrame) and fr.active:
+                    for hn, _h in fr.handlers:
+                        for n in hn:
+                            if n not in names:
+                                names.append(n)
+            for n in names:
+                self.interp.raise_exc(n, st, e, [])
             if self.may_raise is not None:
                 for x in self.may_raise(e, self.fi):
                     self.interp.raise_exc(x, st, e, [])
